@@ -79,6 +79,8 @@ func LogErfc(x float64) float64 {
 
   if x*x < 2.4607833005759251e-02 {
     return logErfc0(x)
+  } else if math.IsInf(x, 1) {
+    return math.Inf(-1)
   } else if x > 8.0 {
     return logErfc8(x)
   } else {
